@@ -55,11 +55,10 @@ fn ok<T>(r: std::io::Result<T>) -> Option<T> {
     }
 }
 
-/// io functions vs bit-stream codes vs definition, for every u64 value
-pub fn io_vs_bitstream<E: En, S: Src, const BIG: bool>(s: &mut S)
-where
-    MS<E, false>: BitWrite<E, Error = core::convert::Infallible> + BitRead<E, Error = core::convert::Infallible>,
-{
+/// encoders: vbyte_write_* and the generic entry point emit exactly the bytes of the definition,
+/// lengths step as byte_len_vbyte says (the bit-stream codes are compared with the same definition by
+/// c03_w_vbyte*, so io bytes == bit-stream bytes at byte-aligned positions)
+pub fn io_write_def<S: Src, const BIG: bool>(s: &mut S) {
     let v = s.u64();
     let j = s.usize();
     let mut sink = FixedSink { bytes: [0; 12], n: 0 };
@@ -71,27 +70,32 @@ where
     assert_eq!(bit_len_vbyte(v), 8 * l, "bit_len_vbyte");
     s.assume(j < l);
     assert_eq!(sink.bytes[j], spec::vbyte_byte(v, BIG, j), "byte differs from the complete 7-bit-group code");
-    // generic entry point selects the variant named by its endianness parameter
     let mut sink2 = FixedSink { bytes: [0; 12], n: 0 };
     let n2 = if BIG { ok(vbyte_write::<BE, _>(v, &mut sink2)) } else { ok(vbyte_write::<LE, _>(v, &mut sink2)) };
     assert!(n2 == Some(l) && sink2.bytes[j] == sink.bytes[j], "vbyte_write::<E> selects the wrong variant");
-    // bit-stream code on a stream of endianness E at a byte-aligned position
-    let pre = s.usize_in(0, 2);
-    let mut ms = MS::<E, false>::new();
-    ms.write_bits(s.u64(), 8 * pre).unwrap();
-    let bl = if BIG { ms.write_vbyte_be(v).unwrap() } else { ms.write_vbyte_le(v).unwrap() };
-    assert_eq!(bl, 8 * l, "bit-stream write length");
-    ms.rpos = 8 * (pre + j);
-    assert_eq!(ms.read_bits(8).unwrap() as u8, sink.bytes[j], "bit-stream code and io function produce different bytes");
-    // decoding: io reader on the bytes, generic and specific
-    let mut src = FixedSource { bytes: sink.bytes, len: l, pos: 0 };
-    let back = if BIG { ok(vbyte_read_be(&mut src)) } else { ok(vbyte_read_le(&mut src)) };
-    assert!(back == Some(v) && src.pos == l, "vbyte_read_* does not invert vbyte_write_*");
-    let mut src2 = FixedSource { bytes: sink.bytes, len: l, pos: 0 };
-    let back2 = if BIG { ok(vbyte_read::<BE, _>(&mut src2)) } else { ok(vbyte_read::<LE, _>(&mut src2)) };
-    assert!(back2 == Some(v), "vbyte_read::<E> selects the wrong variant");
     crate::cover!(s, l == 10, "ten bytes");
     crate::cover!(s, l == 1, "one byte");
+}
+
+/// decoders: on the bytes of the definition, vbyte_read_* and the generic entry point return the value
+pub fn io_read_def<S: Src, const BIG: bool>(s: &mut S) {
+    let v = s.u64();
+    let l = spec::vbyte_bytes(v);
+    let mut bytes = [0u8; 12];
+    macro_rules! f { ($($i:literal)*) => { $( if $i < l { bytes[$i] = spec::vbyte_byte(v, BIG, $i); } )* }; }
+    f!(0 1 2 3 4 5 6 7 8 9);
+    let generic = s.bool();
+    let mut src = FixedSource { bytes, len: l, pos: 0 };
+    let back = match (BIG, generic) {
+        (true, false) => ok(vbyte_read_be(&mut src)),
+        (false, false) => ok(vbyte_read_le(&mut src)),
+        (true, true) => ok(vbyte_read::<BE, _>(&mut src)),
+        (false, true) => ok(vbyte_read::<LE, _>(&mut src)),
+    };
+    assert!(back == Some(v), "vbyte_read does not invert the encoding");
+    assert_eq!(src.pos, l, "decoder consumed exactly the codeword");
+    crate::cover!(s, l == 10, "ten bytes");
+    crate::cover!(s, generic && l == 2, "generic entry point");
 }
 
 /// completeness: every terminated byte string of L bytes whose value fits in 64 bits is the encoding
@@ -143,16 +147,16 @@ pub fn completeness<S: Src, const BIG: bool>(s: &mut S) {
 }
 
 crate::harnesses! {
-    #[kani::unwind(13)]
-    c18_io_be_on_be (quick, "VByteBe: io functions vs MS<BE>", "any u64 value") => io_vs_bitstream::<BE, _, true>;
-    #[kani::unwind(13)]
-    c18_io_be_on_le (quick, "VByteBe: io functions vs MS<LE>", "any u64 value") => io_vs_bitstream::<LE, _, true>;
-    #[kani::unwind(13)]
-    c18_io_le_on_be (quick, "VByteLe: io functions vs MS<BE>", "any u64 value") => io_vs_bitstream::<BE, _, false>;
-    #[kani::unwind(13)]
-    c18_io_le_on_le (quick, "VByteLe: io functions vs MS<LE>", "any u64 value") => io_vs_bitstream::<LE, _, false>;
-    #[kani::unwind(13)]
+    #[kani::unwind(12)]
+    c18_io_write_be (quick, "vbyte_write_be / vbyte_write::<BE>", "any u64 value") => io_write_def::<_, true>;
+    #[kani::unwind(12)]
+    c18_io_write_le (quick, "vbyte_write_le / vbyte_write::<LE>", "any u64 value") => io_write_def::<_, false>;
+    #[kani::unwind(12)]
+    c18_io_read_be (quick, "vbyte_read_be / vbyte_read::<BE>", "any u64 value (bytes of the definition)") => io_read_def::<_, true>;
+    #[kani::unwind(12)]
+    c18_io_read_le (quick, "vbyte_read_le / vbyte_read::<LE>", "any u64 value (bytes of the definition)") => io_read_def::<_, false>;
+    #[kani::unwind(12)]
     c18_complete_be (quick, "VByteBe completeness", "every terminated byte string of 1..=10 bytes with value <= 2^64-1") => completeness::<_, true>;
-    #[kani::unwind(13)]
+    #[kani::unwind(12)]
     c18_complete_le (quick, "VByteLe completeness", "every terminated byte string of 1..=10 bytes with value <= 2^64-1") => completeness::<_, false>;
 }
